@@ -86,6 +86,10 @@ func main() {
 	})
 	run.Units("padded", run.Pick(500, 5000), 0, func(unit int64, r *rand.Rand) { scripted(run, unit, r, dir, "padded") })
 	run.Units("zero", run.Pick(500, 5000), 0, func(unit int64, r *rand.Rand) { scripted(run, unit, r, dir, "size0_first") })
+	// long runs of refusals of ONE kind (a replayed genuine checkpoint with a junk proof, a fork, stale old
+	// sizes, forgeries...): no amount of refused traffic may turn the witness against the honest log
+	run.Floor("probe_after_flood", 200)
+	run.Units("flood", run.Pick(120, 1200), 0, func(unit int64, r *rand.Rand) { scripted(run, unit, r, dir, "flood") })
 }
 
 // scripted builds the two prior histories the statement names explicitly.
@@ -130,6 +134,51 @@ func scripted(run *ev.Run, unit int64, r *rand.Rand, dir, what string) {
 		case "size0_first":
 			_, err := rn.W.Update(ctx, l.ID, 0, l.Honest(r.IntN(2), 0), nil)
 			trace = append(trace, fmt.Sprintf("first checkpoint of size 0 err=%v", err))
+		case "flood":
+			cur := 1 + r.Uint64N(10)
+			if _, err := rn.W.Update(ctx, l.ID, 0, l.Honest(0, cur), nil); err != nil {
+				run.Inconclusive("first update refused: " + err.Error())
+				return
+			}
+			n := 33 + r.IntN(100)
+			class := []string{"junk_proof_replay", "fork_same_size", "fork_larger_with_its_own_proof", "stale_old_size", "old_size_too_large", "forged_signature", "mixed_refusals"}[unit%7]
+			refused := 0
+			for i := 0; i < n; i++ {
+				c := class
+				if c == "mixed_refusals" {
+					c = []string{"junk_proof_replay", "fork_same_size", "fork_larger_with_its_own_proof"}[r.IntN(3)]
+				}
+				var err error
+				switch c {
+				case "junk_proof_replay":
+					nx := cur + 1 + r.Uint64N(8)
+					junk := make([][]byte, 1+r.IntN(4))
+					for j := range junk {
+						junk[j] = make([]byte, 32)
+						for k := range junk[j] {
+							junk[j][k] = byte(r.Uint32())
+						}
+					}
+					_, err = rn.W.Update(ctx, l.ID, cur, l.Honest(0, nx), junk)
+				case "fork_same_size":
+					_, err = rn.W.Update(ctx, l.ID, cur, l.Honest(1, cur), nil)
+				case "fork_larger_with_its_own_proof":
+					nx := cur + 1 + r.Uint64N(8)
+					_, err = rn.W.Update(ctx, l.ID, cur, l.Honest(1, nx), l.Branches[1].Consistency(cur, nx))
+				case "stale_old_size":
+					_, err = rn.W.Update(ctx, l.ID, cur-1, l.Honest(0, cur+2), l.Branches[0].Consistency(cur-1, cur+2))
+				case "old_size_too_large":
+					_, err = rn.W.Update(ctx, l.ID, cur+50, l.Honest(0, cur+2), nil)
+				case "forged_signature":
+					text := refnote.Body(l.Origin, cur+3, l.Root(0, cur+3))
+					_, err = rn.W.Update(ctx, l.ID, cur, refnote.Assemble(text, u.Foreign[0].SigLine(text)), l.Branches[0].Consistency(cur, cur+3))
+				}
+				if err != nil {
+					refused++
+				}
+			}
+			trace = append(trace, fmt.Sprintf("first checkpoint at %d, then %d consecutive requests of kind %s (%d refused)", cur, n, class, refused))
+			run.Distinct("nontrivial", "flood/"+class)
 		}
 	}
 	probeAll(run, unit, r, rn, kind, what, trace)
@@ -206,6 +255,9 @@ func probeAll(run *ev.Run, unit int64, r *rand.Rand, rn *wit.Runner, kind, feat 
 			}
 			if feat == "size0_first" {
 				run.Count("probe_after_size0_first")
+			}
+			if feat == "flood" {
+				run.Count("probe_after_flood")
 			}
 			if size > 1<<32 {
 				run.Count("probe_size_gt_2^32")
